@@ -100,7 +100,12 @@ def h_labels(params, vals, ctx):
     b, n, k = vals["B"], vals["N"], vals["K"]
     require(0 <= b <= 2 or 510 <= b <= 513)  # the listing renders addresses with oct(): one path per value
     require(0 <= n <= params.get("dmax", 2) and 0 <= k <= params.get("dmax", 2))
+    if params.get("late"):
+        require(b % 2 == 0)
     text = ".link {B}\nfirst: .byte 101\n.blkb {N}\nsecond: .byte 102\n1: .byte 7\nC = second - first\n. = . + {K}\nthird:: .byte 103\n"
+    if params.get("late"):
+        # base unknown while compiling; operand-less data directives announce their size before their content exists
+        text = "first: .byte 101\n.blkb {N}\nsecond: .byte 102\n1: .byte 7\nC = second - first\n.blkb {K}\n.even\n.word\n.byte\nthird:: .byte 103\n.link {B}\n"
     n, k, b = concretize(n), concretize(k), concretize(b)  # rendered with oct() anyway: one path per value
     vals = {"B": b, "N": n, "K": k}
     o = assemble([("/w/a.mac", text)], vals, route=ctx.route)
@@ -122,6 +127,8 @@ def h_labels(params, vals, ctx):
             return False
         if entries["C"] != n + 1:
             return False
+        if params.get("late") and b % 2:
+            return False  # unreachable: odd bases are excluded for the late variant (word data)
         for nm, marker in (("first", 0o101), ("second", 0o102), ("third", 0o103)):
             off = entries[nm] - b
             if not (0 <= off < len(code)) or code[off] != marker:
@@ -202,6 +209,7 @@ def obligations(tier, seed):
         obs.append(Ob(oid="order/4", harness=P + "h_order", params={"names": ["d", "b", "a", "c"]}, vars={f"V{i}": "int" for i in range(1, 5)}, timeout=3000))
     obs.append(Ob(oid="labels", harness=P + "h_labels", params={"dmax": 4 if tier == "thorough" else 2}, vars={"B": "int", "N": "int", "K": "int"},
                   timeout=3000 if tier == "thorough" else 900))
+    obs.append(Ob(oid="labels/late-link", harness=P + "h_labels", params={"dmax": 2, "late": True}, vars={"B": "int", "N": "int", "K": "int"}, timeout=900))
     for sel in ("none", "o-bin", "o-BIN", "o-raw", "implicit", "make_bin", "make_raw+make_bin", "make+o"):
         obs.append(Ob(oid=f"lstpath/{sel}", harness=P + "h_lstpath", params={"selector": sel}, vars={"X": "int"}, timeout=600))
     return obs
